@@ -109,13 +109,15 @@ def do_op(op, val, v):
     raise AssertionError(op)
 
 
-def make_seq(nops):
+def make_seq(nops, fdepth=None, fuser=None):
     def h(user_entry: bool, depth: int, v: int, op1: int, op2: int, op3: int, fail_at: int) -> str:
+        if fdepth is not None:
+            depth, user_entry = fdepth, fuser
         assume(0 <= depth <= 3)
         reset_globals(bool(user_entry))
         val = nested(depth, v)
         check(table_ok(user_entry), "constructing values leaves the dispatch table as found", "C20/seq/construct-leaks")
-        assume(-1 <= fail_at <= 4 and fail_at != 0)
+        assume(-1 <= fail_at <= 3 and fail_at != 0)
         raised = False
         for i, op in enumerate([op1, op2, op3][:nops]):
             name = pick(OPS, op)
@@ -138,10 +140,14 @@ def make_seq(nops):
     return h
 
 
-def make_fault(opname):
+def make_fault(opname, fdepth=None, shard=None, kmax=600):
     def h(user_entry: bool, depth: int, v: int, kf: int) -> str:
+        if fdepth is not None:
+            depth = fdepth
         assume(0 <= depth <= 2)
-        assume(1 <= kf <= 600)
+        assume(1 <= kf <= kmax)
+        if shard is not None:
+            assume(kf % shard[1] == shard[0])
         reset_globals(bool(user_entry))
         val = nested(depth, v)
         instrument.arm(kf, "fault")
@@ -176,10 +182,14 @@ def make_fault(opname):
     return h
 
 
-def make_preempt(opname):
+def make_preempt(opname, fdepth=None, shard=None, kmax=600):
     def h(user_entry: bool, depth: int, v: int, k: int) -> str:
+        if fdepth is not None:
+            depth = fdepth
         assume(0 <= depth <= 2)
-        assume(1 <= k <= 600)
+        assume(1 <= k <= kmax)
+        if shard is not None:
+            assume(k % shard[1] == shard[0])
         reset_globals(bool(user_entry))
         val = nested(depth, v)
         other = nested(1, v)
@@ -218,11 +228,20 @@ def make_preempt(opname):
 def obligations(tier):
     obs = []
     nops = 2 if tier == "quick" else 3
-    T = 400 if tier == "quick" else 1800
-    warm_seq = [(u, d, 5, a, b, 2, f) for u in (False, True) for d in (0, 1, 3) for a in range(6) for b in (0, 2, 4) for f in (-1, 1, 2)]
-    obs.append(Ob(f"C20.seq.h{nops}", make_seq(nops), warm_seq, f"history of {nops} copying operations from {OPS} on a value nesting spec instances in lists/dicts to symbolic depth <= 3 with module-valued attributes; dispatch-table baseline absent / user reducer (symbolic); the last operation aborted by __post_copy__ raising at its fail_at-th invocation (symbolic, or never)", expect={"ok", "aborted"}, timeout=T))
+    T = 400 if tier == "quick" else 2400
+    NSH = 4
+    depths = (0, 1) if tier == "quick" else (0, 1, 2)
+    for d in (0, 1, 2) if tier == "quick" else (0, 1, 2, 3):
+        for u in (False, True):
+            warm_seq = [(u, d, 5, a, b, 2, f) for a in range(6) for b in (0, 2, 4) for f in (-1, 1, 2)]
+            obs.append(Ob(f"C20.seq.h{nops}.depth{d}.{'user-reducer' if u else 'absent'}", make_seq(nops, d, u), warm_seq, f"history of {nops} copying operations (symbolic selectors over {OPS}) on a value nesting spec instances in lists/dicts to depth {d} with module-valued attributes; dispatch-table baseline: {'user reducer registered' if u else 'entry absent'}; the last operation aborted by __post_copy__ raising at its fail_at-th invocation (symbolic in 1..3, or never)", expect={"ok", "aborted"}, timeout=T))
+    kmax = 420 if tier == "quick" else 900
     for opname in ("deepcopy", "with") if tier == "quick" else OPS:
-        obs.append(Ob(f"C20.fault.{opname}", make_fault(opname), [(u, d, 5, kf) for u in (False, True) for d in (0, 2) for kf in (1, 5, 17, 60, 599)], f"E2-fault: {opname} of a module-bearing value (depth <= 2) aborted at the kf-th executed statement of library code, kf symbolic in [1,600]; table checked after the abort has unwound and after one later copy", expect={"fault-injected"}, timeout=T * 2, per_path=90))
+        for d in depths:
+            for sh in range(NSH):
+                obs.append(Ob(f"C20.fault.{opname}.depth{d}.shard{sh}of{NSH}", make_fault(opname, d, (sh, NSH), kmax), [(u, d, 5, kf) for u in (False, True) for kf in (sh + NSH, sh + 5 * NSH, sh + 40 * NSH)], f"E2-fault: {opname} of a module-bearing value (nesting depth {d}) aborted at the kf-th executed statement of library code, kf symbolic in [1,{kmax}] with kf % {NSH} == {sh}; baseline absent / user reducer symbolic; table checked after the abort has unwound and after one later copy", expect=set(), timeout=T, per_path=90, group=f"C20.fault.{opname}"))
     for opname in ("deepcopy", "construct") if tier == "quick" else OPS:
-        obs.append(Ob(f"C20.preempt.{opname}", make_preempt(opname), [(u, d, 5, k) for u in (False, True) for d in (0, 2) for k in (1, 5, 17, 60, 599)], f"E2-preempt (LIFO-nested schedules, 2 threads): thread A performs {opname} on a module-bearing value (depth <= 2) and is preempted at its k-th executed library statement (k symbolic in [1,600], B needing a lock that A holds makes the schedule infeasible = skipped) by thread B running two complete copies of module-bearing values", expect={"preempted"}, timeout=T * 2, per_path=90))
+        for d in depths:
+            for sh in range(NSH):
+                obs.append(Ob(f"C20.preempt.{opname}.depth{d}.shard{sh}of{NSH}", make_preempt(opname, d, (sh, NSH), kmax), [(u, d, 5, k) for u in (False, True) for k in (sh + NSH, sh + 5 * NSH, sh + 40 * NSH)], f"E2-preempt (LIFO-nested, 2 threads): thread A performs {opname} on a module-bearing value (depth {d}) and is preempted at its k-th executed library statement (k symbolic in [1,{kmax}], k % {NSH} == {sh}); thread B runs two complete copies of module-bearing values there; a B that needs a lock held by A = infeasible schedule (skipped)", expect=set(), timeout=T, per_path=90, group=f"C20.preempt.{opname}"))
     return obs
